@@ -451,6 +451,15 @@ def builder_structs(tier):
     sp.append(Struct(32, [], default=0xdeadbeef, family='BLDX', has_builder=True))                 # no writable field at all
     sp.append(Struct(32, [Field([(0, 8)], 'n', access='r', family='BLDX')], default=0x12345678, family='BLDX', has_builder=True))
     out += sp
+    # many steps: the chain length / running mask for structs with 9..64 writable fields
+    for n, w in ((16, 1), (32, 1), (64, 1), (64, 4), (128, 8), (128, 2), (24, 2), (100, 10)):
+        k = n // w
+        fs = [Field([(i * w, w)], _kind(w, i), family='BLDMANY') for i in range(k)]
+        out.append(Struct(n, fs, family='BLDMANY', has_builder=True))
+        out.append(Struct(n, list(reversed([Field(f.ranges, f.kind, family='BLDMANY') for f in fs])), family='BLDMANY', has_builder=True))
+        # every other field read-only, with a default
+        fs2 = [Field([(i * w, w)], _kind(w, i), access=('rw' if i % 2 == 0 else 'r'), family='BLDMANY') for i in range(k)]
+        out.append(Struct(n, fs2, default=mask(n) & 0x5A5A5A5A5A5A5A5A5A5A5A5A5A5A5A5A, family='BLDMANY', has_builder=True))
     return out
 
 
